@@ -46,7 +46,13 @@ br_ssl_client_reset(br_ssl_client_context *cc,
 
 	br_ssl_engine_set_buffer(&cc->eng, NULL, 0, 0);
 	cc->eng.version_out = cc->eng.version_min;
-	if (!resume_session) {
+	/*
+	 * Session parameters left behind by a handshake that did not
+	 * complete are not those of an established session (the session
+	 * ID is stored as soon as the ServerHello is parsed): they must
+	 * not be offered for resumption.
+	 */
+	if (!resume_session || cc->eng.hs_unfinished) {
 		br_ssl_client_forget_session(cc);
 	}
 	if (!br_ssl_engine_init_rand(&cc->eng)) {
